@@ -195,11 +195,12 @@ func (s *Solver) Check(assumption *Term, negate bool) Result {
 		}
 		if assumption.Op == OpConst {
 			// constants cannot be assumption literals
-			s.send("(push 1)")
-			s.send("(assert " + lit + ")")
+			if (assumption.Val == 1) == negate {
+				s.account(Unsat, start)
+				return Unsat
+			}
 			s.send("(check-sat)")
 			r := s.readResult()
-			s.send("(pop 1)")
 			s.account(r, start)
 			return r
 		}
